@@ -30,6 +30,8 @@ def make_client(framing, rx=b"", retries=0, retry_on_empty=False, retry_on_inval
                                       retries=retries, retry_on_empty=retry_on_empty, retry_on_invalid=retry_on_invalid)
             # pymodbus turns retries=0 into 1 ("or 1"); harnesses set the attribute they mean explicitly
             self.transaction.retries = retries
+            from engine.hlib import eqdict
+            self.transaction.transactions = eqdict()   # see hlib.eqdict: hash-free map under the solver
 
         def connect(self):
             self.connected += 1
